@@ -28,6 +28,7 @@ func propC03() *Property {
 			{ID: "C03.R4", Title: "content-type rule in validateHeaders and MediaType.Matches", Floor: 6, Run: c03R4},
 			{ID: "C03.R5", Title: "status line recogniser shape", Floor: 4, Run: c03R5},
 			{ID: "C03.R6", Title: "cache key completeness; no budget-dependent outcome cached", Floor: 6, Run: c03R6},
+			{ID: "C03.R7", Title: "status and header recognisers see whole lines only", Floor: 3, Run: wholeLines},
 		},
 	}
 }
@@ -1073,6 +1074,32 @@ func c03R5(c *Ctx) {
 	}
 }
 
+// variadicOperands: the values stored into the implicit []any of a variadic call.
+func variadicOperands(call *ssa.Call) []ssa.Value {
+	var out []ssa.Value
+	if len(call.Call.Args) == 0 {
+		return nil
+	}
+	sl, ok := call.Call.Args[len(call.Call.Args)-1].(*ssa.Slice)
+	if !ok {
+		return nil
+	}
+	arr, ok := sl.X.(*ssa.Alloc)
+	if !ok {
+		return nil
+	}
+	for _, r := range refs(arr) {
+		if ia, ok := r.(*ssa.IndexAddr); ok {
+			for _, rr := range refs(ia) {
+				if st, ok := rr.(*ssa.Store); ok && st.Addr == ssa.Value(ia) {
+					out = append(out, st.Val)
+				}
+			}
+		}
+	}
+	return out
+}
+
 func c03R6(c *Ctx) {
 	P := c.P
 	g := analyseGet(P)
@@ -1108,6 +1135,44 @@ func c03R6(c *Ctx) {
 				"parameter "+p.Name()+" is part of the cache key (or identical at every call site)",
 				"the cache key does not depend on parameter "+p.Name()+", which differs between callers: an entry stored for one kind of request is served to another that would not have accepted it")
 		}
+	}
+	// (a') the key contains the complete serialisation of the URL: a key made of
+	// components (host, path, …) maps URLs that differ in scheme or fragment to
+	// one entry, and a hit then skips the https test or reports another source
+	for _, call := range keyed {
+		full := false
+		var leaves func(v ssa.Value, d int)
+		leaves = func(v ssa.Value, d int) {
+			v = unwrapLoad(v)
+			if d > 12 {
+				return
+			}
+			if bo, ok := v.(*ssa.BinOp); ok && bo.Op == token.ADD {
+				leaves(bo.X, d+1)
+				leaves(bo.Y, d+1)
+				return
+			}
+			if sc, ok := v.(*ssa.Call); ok && isLibCall(&sc.Call, "net/url", "URL", "String") && unwrapLoad(sc.Call.Args[0]) == ssa.Value(g.link) {
+				full = true
+			}
+			// fmt.Sprint*/Sprintf with the URL (a Stringer) or its String() as operand
+			if sc, ok := v.(*ssa.Call); ok {
+				if f := calleeObj(&sc.Call); f != nil && f.Pkg() != nil && f.Pkg().Path() == "fmt" && strings.HasPrefix(f.Name(), "Sprint") {
+					for _, a := range variadicOperands(sc) {
+						if mi, ok := a.(*ssa.MakeInterface); ok {
+							if unwrapLoad(mi.X) == ssa.Value(g.link) {
+								full = true
+							}
+							leaves(mi.X, d+1)
+						}
+					}
+				}
+			}
+		}
+		leaves(call.Call.Args[1], 0)
+		c.check(full, fname+"/cache-key:full-url", P.InstrPos(call), fname,
+			"the cache key contains link.String(), the complete URL",
+			"the cache key is not built from the complete URL (link.String()): URLs that differ in scheme or fragment share an entry, so a cache hit can answer a non-https URL or report another URL as the source")
 	}
 	// (b) a bundle whose error may be non-nil is never stored
 	for _, call := range keyed {
@@ -1189,4 +1254,110 @@ func constStringSlice(a ssa.Value) ([]string, bool) {
 		}
 	}
 	return out, len(out) > 0
+}
+
+// wholeLines (C03.R7 and C05.R5): the anchored recognisers of the response head
+// (status line, Content-Type, Location, end of head) are sound only on strings
+// that start at a line start and end at its line feed. Every string they are
+// given must therefore be result #0 of (*bufio.Reader).ReadString('\n') whose
+// error is known to be nil at the use: ReadString returns a nil error exactly
+// when the line is complete, whatever its length. ReadLine / ReadSlice /
+// Scanner hand out fragments (long lines, a stream cut before the line feed)
+// that look like lines.
+func wholeLines(c *Ctx) {
+	P := c.P
+	recognisers := map[*ssa.Function]bool{}
+	for _, fn := range P.FuncsIn("servitor/jtp") {
+		if len(fn.Params) == 0 || !isStringType(fn.Params[0].Type()) {
+			continue
+		}
+		// a function that applies a package-level regexp to its first parameter
+		uses := false
+		eachInstr(fn, func(_ *ssa.BasicBlock, _ int, in ssa.Instruction) {
+			call, ok := in.(*ssa.Call)
+			if !ok || !isLibCall(&call.Call, "regexp", "Regexp", "FindStringSubmatch") && !isLibCall(&call.Call, "regexp", "Regexp", "MatchString") {
+				return
+			}
+			if len(call.Call.Args) == 2 && unwrapLoad(call.Call.Args[1]) == ssa.Value(fn.Params[0]) {
+				uses = true
+			}
+		})
+		if uses {
+			recognisers[fn] = true
+		}
+	}
+	c.info("line_recognisers", len(recognisers))
+	// lineOK: v, used in block b, is a complete line of the stream or a constant
+	var lineOK func(v ssa.Value, b *ssa.BasicBlock, depth int) (bool, string)
+	lineOK = func(v ssa.Value, b *ssa.BasicBlock, depth int) (bool, string) {
+		v = unwrapLoad(v)
+		why := "the text is not a line read by (*bufio.Reader).ReadString('\\n')"
+		if depth > 4 {
+			return false, why
+		}
+		if _, isConst := v.(*ssa.Const); isConst {
+			return true, "" // not data from the stream
+		}
+		if ph, isPhi := v.(*ssa.Phi); isPhi {
+			for k, ed := range ph.Edges {
+				pred := ph.Block().Preds[k]
+				okEdge, whyEdge := false, ""
+				withEdge(pred, ph.Block(), func() { okEdge, whyEdge = lineOK(ed, pred, depth+1) })
+				if !okEdge {
+					return false, whyEdge
+				}
+			}
+			return true, ""
+		}
+		if cv, isConv := v.(*ssa.Convert); isConv {
+			v = unwrapLoad(cv.X) // string(bytes) of ReadBytes
+		}
+		if ex, isEx := v.(*ssa.Extract); isEx && ex.Index == 0 {
+			if rs, isCall := ex.Tuple.(*ssa.Call); isCall && (isLibCall(&rs.Call, "bufio", "Reader", "ReadString") || isLibCall(&rs.Call, "bufio", "Reader", "ReadBytes")) {
+				delim, isC := constInt(rs.Call.Args[1])
+				e, _ := errorResult(rs)
+				switch {
+				case !isC || delim != 10:
+					return false, "the line is not delimited by the line feed"
+				case e == nil || !knownNil(e, b):
+					return false, "the error of ReadString is not known to be nil where its text is used: a line cut off by the end of the stream, a timeout or a reset is treated as a complete line"
+				}
+				return true, ""
+			}
+		}
+		return false, why
+	}
+	checkLine := func(fn *ssa.Function, v ssa.Value, at ssa.Instruction, what string) {
+		fname := FuncName(fn)
+		ok, why := lineOK(v, at.Block(), 0)
+		c.check(ok, fname+"/whole-line:"+what, P.InstrPos(at), fname, "a complete line (ReadString('\\n') with nil error)", "the text given to "+what+": "+why)
+	}
+	for _, fn := range P.FuncsIn("servitor/jtp") {
+		if recognisers[fn] {
+			continue
+		}
+		eachInstr(fn, func(_ *ssa.BasicBlock, _ int, in ssa.Instruction) {
+			switch x := in.(type) {
+			case *ssa.Call:
+				if callee := x.Call.StaticCallee(); callee != nil && recognisers[callee] {
+					checkLine(fn, x.Call.Args[0], in, callee.Name())
+				}
+			case *ssa.BinOp:
+				// end of head: line == "\r\n" || line == "\n"
+				if x.Op != token.EQL && x.Op != token.NEQ {
+					return
+				}
+				for _, pair := range [][2]ssa.Value{{x.X, x.Y}, {x.Y, x.X}} {
+					if s, isC := constString(pair[1]); isC && (s == "\r\n" || s == "\n") {
+						checkLine(fn, pair[0], in, "end-of-head")
+					}
+				}
+			}
+		})
+	}
+}
+
+func isStringType(t types.Type) bool {
+	b, ok := t.Underlying().(*types.Basic)
+	return ok && b.Info()&types.IsString != 0
 }
